@@ -191,7 +191,7 @@ func init() {
 		})
 		w := newNDWriter(*out)
 		defer w.Close()
-		var nJson, nSchema, nEnum, mism int64
+		var nJson, nSchema, nEnum, nEmb, mism int64
 		parallelFor(len(cases), func(i int) {
 			k := cases[i]
 			var text []byte
@@ -212,6 +212,18 @@ func init() {
 				atomic.AddInt64(&mism, 1)
 				w.Write(c06Mismatch{"json", string(text), hex.EncodeToString(text), k.Events, got, eof, fail})
 			}
+			{
+				// the same value embedded in foreign text (AllowTrailingNonSpaceCharacters): the events of the value, whatever was called before
+				tail := [][]byte{[]byte(" GET /cats"), []byte("\nPOST /x {}"), []byte("\t@t"), []byte("\r\n[1]")}[i%4]
+				emb := append(append([]byte{}, text...), tail...)
+				got, eof, fail := jsonEventsAfter(emb, true, (i/4)%24)
+				got = dropEndTop(got)
+				atomic.AddInt64(&nEmb, 1)
+				if !eof || !sameEvents(got, k.Events) {
+					atomic.AddInt64(&mism, 1)
+					w.Write(c06Mismatch{"json-embedded", string(emb), hex.EncodeToString(emb), k.Events, got, eof, fail})
+				}
+			}
 			if !hasExponent(k.Toks, spell) {
 				atomic.AddInt64(&nSchema, 1)
 				got, fail := schemaEvents(text)
@@ -231,7 +243,7 @@ func init() {
 				}
 			}
 		})
-		b, _ := json.Marshal(map[string]int64{"cases": int64(len(cases)), "json": nJson, "schema": nSchema, "enum": nEnum, "mismatches": mism})
+		b, _ := json.Marshal(map[string]int64{"cases": int64(len(cases)), "json": nJson, "embedded": nEmb, "schema": nSchema, "enum": nEnum, "mismatches": mism})
 		fmt.Fprintln(os.Stderr, "@@SUMMARY "+string(b))
 		return 0
 	})
@@ -300,6 +312,16 @@ func init() {
 		}
 		return 0
 	})
+}
+
+func dropEndTop(a []Event) []Event {
+	var out []Event
+	for _, e := range a {
+		if e.Ty != "end-top" {
+			out = append(out, e)
+		}
+	}
+	return out
 }
 
 func orEmpty(e []Event) []Event {
